@@ -117,6 +117,13 @@ fn main() {
           for l in &report.loads {
             out.push_str(&format!("LOAD {} sum={:?} -> {}\n", l.id.label(), l.checksum, l.answer));
           }
+          for (nv, deps) in session.graph.packages.packages_with_deps() {
+            out.push_str(&format!(
+              "DEPS {} -> {:?}\n",
+              nv,
+              deps.map(|d| d.req.to_string()).collect::<Vec<_>>()
+            ));
+          }
           if let Some(seg) = seg {
             let roots: Vec<deno_graph::ModuleSpecifier> = seg
               .iter()
